@@ -52,8 +52,10 @@ Contents(id) ==
                                                   <<IL(TList(TNum), <<NumV(1)>>), IL(TList(TNum), <<NumV(2)>>)>>))>>
     [] id = "N" -> <<B(N_n, NumV(3)), B(N_ob, IO(TObj(<<Fld(N_p, TList(TNum)), Fld(N_q, TList(TStr))>>),
                                                   <<IL(TList(TNum), <<NumV(1)>>), IL(TList(TStr), <<VStr(<<97>>)>>)>>))>>
+    [] id = "O" -> Replace(EnvA, N_ob, IO(TObj(<<Fld(N_a, TNum), Fld(N_c, TStr)>>), <<NumV(1), VStr(<<120>>)>>))    \* a nested field renamed
+    [] id = "P" -> Replace(EnvA, N_ob, IO(TObj(<<Fld(N_c, TNum), Fld(N_b, TStr)>>), <<NumV(1), VStr(<<120>>)>>))
     [] OTHER -> <<>>
-ContentIds == <<"A", "B", "C", "D", "E", "F", "G", "H", "I", "J", "K", "L", "M", "N">>
+ContentIds == <<"A", "B", "C", "D", "E", "F", "G", "H", "I", "J", "K", "L", "M", "N", "O", "P">>
 Kinds == <<"raw", "struct", "map">>
 \* environment objects: index = (content, kind)
 EnvObjs == Prod2(ContentIds, Kinds, LAMBDA c, k : [id |-> c, kind |-> k, binds |-> Contents(c)])
@@ -69,7 +71,7 @@ DebugS(src, v) == [op |-> "debug", src |-> src, venv |-> v]
 PairSrcs == IF P_SIZE >= 1 THEN <<SRC_n_plus_1, SRC_ob_a_plus_n, SRC_t1_t2, SRC_len_xs_plus_n, SRC_get_mx, SRC_one>>
             ELSE <<SRC_ob_a_plus_n, SRC_t1_t2>>
 PairHists ==
-  Prod3(Prod2(<<"A", "C", "E", "F", "K", "J">>, Kinds, LAMBDA c, k : ObjIdx(c, k)), [i \in 1..Len(EnvObjs) |-> i], PairSrcs,
+  Prod3(Prod2(<<"A", "C", "E", "F", "K", "J", "O">>, Kinds, LAMBDA c, k : ObjIdx(c, k)), [i \in 1..Len(EnvObjs) |-> i], PairSrcs,
         LAMBDA t, v, s : <<Compile(1, s, t), Invoke(1, v)>>)
     \o Prod3(Prod2(<<"M", "N">>, Kinds, LAMBDA c, k : ObjIdx(c, k)), Prod2(<<"M", "N", "A">>, Kinds, LAMBDA c, k : ObjIdx(c, k)), <<SRC_n_plus_1>>,
               LAMBDA t, v, s : <<Compile(1, s, t), Invoke(1, v)>>)
@@ -85,7 +87,7 @@ DeepSrcs == <<RepT(<<91, 49, 58>>, 28) \o <<49>> \o RepT(<<93>>, 28),           
 DeepHists == Map1A(DeepSrcs, LAMBDA s : <<EvalS(s, ObjIdx("A", "struct"))>>)
                \o Map1A(DeepSrcs, LAMBDA s : <<Compile(1, s, ObjIdx("A", "raw")), Invoke(1, ObjIdx("A", "raw"))>>)
 TotalSrcs == <<SRC_n_plus_1, SRC_syntax_err, SRC_type_err, SRC_lex_err, SRC_xs_n, SRC_deep_idx, SRC_mod0, SRC_key_zz, SRC_bad_regex,
-               SRC_if_guard, SRC_union_xs, SRC_print_n, SRC_string_m, SRC_t1_t2, SRC_nested, SRC_m_b, SRC_string_mm, SRC_string_obmm>>
+               SRC_if_guard, SRC_union_xs, SRC_print_n, SRC_string_m, SRC_t1_t2, SRC_nested, SRC_m_b, SRC_string_mm, SRC_string_obmm, SRC_nl_after, SRC_nl_before, SRC_crlf_after, SRC_nl_inside>>
 FailSrcs == <<SRC_bad_regex, SRC_deep_idx, SRC_mod0, SRC_key_zz, SRC_syntax_err, SRC_type_err, SRC_lex_err>>
 AfterSrcs == <<SRC_good_match, SRC_good_match2, SRC_n_plus_1, SRC_m_b>>
 TotalHists ==
